@@ -57,6 +57,10 @@ type Conn struct {
 	rDeadline time.Time
 	wDeadline time.Time
 
+	// OnWrite, when set, is called (without the tap's lock) after every Write
+	// with the bytes that were accepted: the moment they are "on the wire".
+	OnWrite func(b []byte)
+
 	// QuietIO suppresses "read"/"write" events (deadline, close and timeout
 	// events are always logged); used where the tap's own allocations matter.
 	QuietIO bool
@@ -176,7 +180,14 @@ func (c *Conn) Read(b []byte) (int, error) {
 }
 
 // Write implements net.Conn.
-func (c *Conn) Write(b []byte) (int, error) {
+func (c *Conn) Write(b []byte) (n int, err error) {
+	if c.OnWrite != nil {
+		defer func() {
+			if n > 0 {
+				c.OnWrite(b[:n])
+			}
+		}()
+	}
 	c.mu.Lock()
 	defer c.mu.Unlock()
 	if c.closed > 0 {
@@ -187,8 +198,7 @@ func (c *Conn) Write(b []byte) (int, error) {
 		c.log("write-timeout", 0, os.ErrDeadlineExceeded, time.Time{})
 		return 0, os.ErrDeadlineExceeded
 	}
-	n := len(b)
-	var err error
+	n = len(b)
 	if c.WriteFailAfter >= 0 && len(c.written)+n > c.WriteFailAfter {
 		n = max(0, c.WriteFailAfter-len(c.written))
 		err = c.WriteErr
